@@ -611,6 +611,10 @@ func c16RunCase(t *testing.T, k c16Knobs, seed int64) c16Obs {
 
 	if k.Noise > 0 {
 		cands := c16ReqSites
+		if k.Disturb == "restart" && len(c16DoneSites) > 0 && rng.Intn(4) != 0 {
+			// a restart wipes the bookkeeping off-turn: stretch the completion path
+			cands = c16DoneSites
+		}
 		if k.Requester == "grain" || len(cands) == 0 || rng.Intn(4) == 0 {
 			cands = vfNoiseSites("actor/reentrancy.go", "actor/async_reply.go", "internal/pendingasks", "actor/pid.go", "actor/grain_pid.go", "actor/stash.go")
 		}
@@ -771,7 +775,7 @@ func c16RunCase(t *testing.T, k c16Knobs, seed int64) c16Obs {
 		// burst round
 		ncmd := 1 + rng.Intn(2)
 		if disturbRounds[round] {
-			ncmd = 3
+			ncmd = 4
 		}
 		for c := 0; c < ncmd; c++ {
 			cmd := &c16Issue{done: make(chan struct{})}
@@ -918,7 +922,25 @@ func c16RunCase(t *testing.T, k c16Knobs, seed int64) c16Obs {
 			if inflight < 0 || blocking < 0 {
 				sig = "counters-negative:"
 			}
-			led.violation(sig+strings.Join(which, "+"), map[string]any{"inFlightCount": inflight, "blockingCount": blocking, "requestStates": states, "after": k.Disturb, "accepted": obs.Accepted})
+			// which requests does the harness still know as accepted and not completed
+			var open []string
+			for _, rec := range led.recs {
+				if rec.accepted.Load() && rec.thens.Load() == 0 {
+					st := ""
+					if h, ok := rec.call.(*requestHandle); ok && h != nil && h.state != nil {
+						h.state.mu.Lock()
+						st = fmt.Sprintf(" state{completed=%v cancelRequested=%v hasTimeout=%v}", h.state.completed, h.state.cancelRequested, h.state.stopTimeout != nil)
+						h.state.mu.Unlock()
+						if _, reg := re.requestStates.Get(h.state.id); reg {
+							st += " STILL-REGISTERED"
+						}
+					}
+					if len(open) < 8 {
+						open = append(open, fmt.Sprintf("%s incarnation=%d (final=%d)%s", c16SpecString(rec.spec), rec.incarnation.Load(), finalInc, st))
+					}
+				}
+			}
+			led.violation(sig+strings.Join(which, "+"), map[string]any{"accepted_not_completed": open, "inFlightCount": inflight, "blockingCount": blocking, "requestStates": states, "after": k.Disturb, "accepted": obs.Accepted})
 		}
 	}
 	// ordinary messages: handled exactly once when the requester was never disturbed
@@ -986,8 +1008,9 @@ func c16RunCase(t *testing.T, k c16Knobs, seed int64) c16Obs {
 // ---- site calibration: the yield sites only request traffic passes ---------------------
 
 var (
-	c16CalOnce  sync.Once
-	c16ReqSites []int
+	c16CalOnce   sync.Once
+	c16ReqSites  []int // passed by request traffic, not by plain Tell traffic
+	c16DoneSites []int // of those: passed when a request completes, not when it is admitted
 )
 
 func c16Hits() []int64 {
@@ -1053,6 +1076,38 @@ func c16Calibrate(t *testing.T) {
 			return led.ordHandled[311].Load() > 0
 		})
 		h2 := c16Hits()
+		// phase 3: admit requests that cannot complete by themselves (registration
+		// only), then phase 4: cancel them (completion / deregistration only)
+		var pend []*c16Rec
+		cmd := &c16Issue{done: make(chan struct{})}
+		for j := 0; j < 4; j++ {
+			sp := &c16Spec{Rid: int64(1000 + j), API: "Request", Behave: "never", Mode: "allowall", CancelAfter: -1}
+			rec := &c16Rec{spec: sp}
+			sp.rec = rec
+			pend = append(pend, rec)
+			cmd.Specs = append(cmd.Specs, sp)
+		}
+		_ = Tell(ctx, pid, cmd)
+		select {
+		case <-cmd.done:
+		case <-time.After(10 * time.Second):
+		}
+		verifrt.WaitUntil(5*time.Second, func() bool { return c16MailboxQuiet(pid, nil) })
+		h3 := c16Hits()
+		for _, rec := range pend {
+			if rec.accepted.Load() {
+				_ = rec.call.Cancel()
+			}
+		}
+		verifrt.WaitUntil(10*time.Second, func() bool {
+			for _, rec := range pend {
+				if rec.accepted.Load() && rec.thens.Load() == 0 {
+					return false
+				}
+			}
+			return true
+		})
+		h4 := c16Hits()
 		verifrt.StopNoise()
 		in := map[int]bool{}
 		for _, s := range verifrt.SitesIn("actor/pid.go", "actor/reentrancy.go", "actor/async_reply.go", "actor/stash.go", "internal/pendingasks") {
@@ -1061,6 +1116,9 @@ func c16Calibrate(t *testing.T) {
 		for s := 0; s < verifrt.SiteCount; s++ {
 			if in[s] && h2[s]-h1[s] > 0 && h1[s]-h0[s] == 0 {
 				c16ReqSites = append(c16ReqSites, s)
+				if h4[s]-h3[s] > 0 && h3[s]-h2[s] == 0 {
+					c16DoneSites = append(c16DoneSites, s)
+				}
 			}
 		}
 	})
@@ -1091,6 +1149,11 @@ func TestVerif_C16(t *testing.T) {
 		names = append(names, verifrt.SiteNames[s])
 	}
 	r.Note("request-only sites: %v", names)
+	var dnames []string
+	for _, s := range c16DoneSites {
+		dnames = append(dnames, verifrt.SiteNames[s])
+	}
+	r.Note("completion-only sites: %v", dnames)
 	r.Count("request_only_sites", int64(len(c16ReqSites)))
 	rng := r.Rand(16)
 	n := r.N(120, 4000)
